@@ -105,7 +105,7 @@ TraceMake ==
 OwnedOfKind(k) == {x \in owned : x[1] = k}
 CellsOf(k, id) == {i \in LiveCells : cells[i].k = k /\ (zst \/ cells[i].id = id)}
 MinOf(S) == CHOOSE i \in S : \A j \in S : i <= j
-Ledger(t) == cat \o ":" \o t
+Ledger(t) == (IF mismatch THEN "C10" ELSE IF fail # <<>> THEN "C09" ELSE cat) \o ":" \o t
 FailCat == IF mismatch THEN "C10" ELSE "C09"
 
 TraceDrop ==
